@@ -1,4 +1,5 @@
 import DmrVerif.Lemmas.RsKernel
+import DmrVerif.Lemmas.RsSub
 
 /-!
 # C11 — Reed–Solomon (12,9) over GF(2^8): parity, exact checker, distance 4
@@ -252,6 +253,74 @@ theorem min_distance (d₁ d₂ mask : Bytes) (h₁ : d₁.length = 9) (h₂ : d
   rw [hacc] at hrej
   cases hrej
 
+/-! ## all three roots are needed: the super-code of a checker that tests only two of them
+
+`checkRoots js` is the checker that evaluates the unmasked word at the roots α^j, j ∈ js, only.  With a
+root dropped it still accepts every generated word and still rejects every corruption of one or two
+octets; the words it wrongly accepts are, on each of the 220 position triples, the 255 multiples of one
+pattern (`subWitness`) — 1.5·10⁻⁵ of the corruptions of three octets, never met by sampling.  The
+differential run therefore constructs them (`two_root_families` in `harness/props/c11.py`, all 3·220·255);
+the statements below say, for all messages and masks, what must come out. -/
+
+/-- `check` is the checker that tests all three roots -/
+theorem check_eq_checkRoots (w mask : Bytes) (hw : w.length = 12) (hm : mask.length = 3)
+    (bw : isBytes w = true) (bm : isBytes mask = true) : check w mask = checkRoots [1, 2, 3] w mask :=
+  (checkRoots_123 w mask hw hm bw bm).symm
+
+/-- Dropping α³ cannot be seen on corruptions of one or two octets: the checker with the roots α, α² only
+still rejects every word that differs from a generated word in one or two octet positions. -/
+theorem two_roots_detect_le2 (d mask c w : Bytes) (hd : d.length = 9) (hm : mask.length = 3)
+    (bd : isBytes d = true) (bm : isBytes mask = true) (hc : generate d mask = some c)
+    (hw : w.length = 12) (bw : isBytes w = true)
+    (h1 : 1 ≤ symDist w c) (h2 : symDist w c ≤ 2) : checkRoots [1, 2] w mask = some false := by
+  rw [generate_eq d mask hd] at hc
+  cases hc
+  refine detect2_of_close d mask w hd hm hw bd bm bw ?_ h2
+  intro h
+  rw [h, symDist_self] at h1
+  omega
+
+/-- For each pair of roots `(u, v)` (third root `k`) and **every** position triple `a < b < c` the pattern
+`subWitness u v a b c` consists of octets, is non-zero exactly at `a`, `b`, `c` (weight 3), vanishes at
+α^u and α^v and does not vanish at α^k.  (Kernel enumeration of the 3 · 220 cases on the extracted tables.) -/
+theorem two_root_witness (u v k : Nat) (h : (u, v, k) = (1, 2, 3) ∨ (u, v, k) = (1, 3, 2) ∨ (u, v, k) = (2, 3, 1))
+    (a b c : Nat) (hab : a < b) (hbc : b < c) (hc : c < 12) :
+    (subWitness u v a b c).length = 12 ∧ isBytes (subWitness u v a b c) = true ∧
+    (∀ p, p < 12 → ((subWitness u v a b c).getD p 0 ≠ 0 ↔ p = a ∨ p = b ∨ p = c)) ∧
+    symWeight (subWitness u v a b c) = 3 ∧
+    syndrome u (subWitness u v a b c) = 0 ∧ syndrome v (subWitness u v a b c) = 0 ∧
+    syndrome k (subWitness u v a b c) ≠ 0 := by
+  rcases h with h | h | h <;> cases h
+  · exact subOkP_spec 1 2 3 a b c (subAllP_spec 1 2 3 subAll_12_3 a b c hab hbc hc)
+  · exact subOkP_spec 1 3 2 a b c (subAllP_spec 1 3 2 subAll_13_2 a b c hab hbc hc)
+  · exact subOkP_spec 2 3 1 a b c (subAllP_spec 2 3 1 subAll_23_1 a b c hab hbc hc)
+
+/-- Consequently a checker that tests only two of the three roots violates the property for **every**
+message, mask and position triple: the generated word with the three octets `a < b < c` changed by
+`subWitness` differs from it in exactly three positions, the two-root checker accepts it, and `check`
+(all three roots) rejects it. -/
+theorem two_root_checker_misses (u v k : Nat)
+    (h : (u, v, k) = (1, 2, 3) ∨ (u, v, k) = (1, 3, 2) ∨ (u, v, k) = (2, 3, 1))
+    (d mask : Bytes) (hd : d.length = 9) (hm : mask.length = 3) (bd : isBytes d = true)
+    (bm : isBytes mask = true) (a b c : Nat) (hab : a < b) (hbc : b < c) (hc : c < 12) :
+    symDist (xorBytes (encode d mask) (subWitness u v a b c)) (encode d mask) = 3 ∧
+    checkRoots [u, v] (xorBytes (encode d mask) (subWitness u v a b c)) mask = some true ∧
+    check (xorBytes (encode d mask) (subWitness u v a b c)) mask = some false := by
+  obtain ⟨hl, hb, _, hwt, hu, hv, _⟩ := two_root_witness u v k h a b c hab hbc hc
+  have huv : ∀ j ∈ [u, v], 1 ≤ j ∧ j ≤ 3 := by
+    intro j hj
+    simp only [List.mem_cons, List.not_mem_nil, or_false] at hj
+    rcases h with h | h | h <;> cases h <;> rcases hj with rfl | rfl <;> omega
+  refine ⟨?_, ?_, ?_⟩
+  · rw [symDist_xor_error _ _ (by rw [encode_length d mask hd hm, hl]), hwt]
+  · refine checkRoots_accepts [u, v] huv d mask _ hd hm bd hl hb ?_
+    intro j hj
+    simp only [List.mem_cons, List.not_mem_nil, or_false] at hj
+    rcases hj with rfl | rfl
+    · exact hu
+    · exact hv
+  · exact detect_le3_xor d mask _ _ hd hm bd bm (generate_eq d mask hd) hl hb (by omega) (by omega)
+
 /-! ## non-vacuity: a captured voice LC header of the repository's own test, and corruptions of it -/
 
 example : isBytes [3, 0, 0, 0x26, 0x35, 0xa9, 0x03, 0xd4, 0x75] = true ∧
@@ -280,6 +349,20 @@ example : generate [0, 0, 0, 0, 0, 1, 14, 56, 64] rsMaskVoiceLCHeader
     check ([0, 0, 0, 0, 0, 1, 14, 56, 64] ++ rsMaskVoiceLCHeader) rsMaskVoiceLCHeader = some true ∧
     generate [1, 14, 56, 64, 0, 0, 0, 0, 0] [0, 0, 0] = some [1, 14, 56, 64, 0, 0, 0, 0, 0, 0, 0, 0] := by
   decide +kernel
+
+/-- the pattern of a trial in which α³ was not tested (octets 2, 6, 8 changed by 01, 4d, 69): it vanishes at
+α and α², the two-root checker accepts it on top of the captured header, `check` rejects it; it is 0x32
+times `subWitness 1 2 2 6 8` -/
+example : (subWitness 1 2 2 6 8).map (logMultiply 0x32) = [0, 0, 1, 0, 0, 0, 0x4d, 0, 0x69, 0, 0, 0] ∧
+    syndrome 1 [0, 0, 1, 0, 0, 0, 0x4d, 0, 0x69, 0, 0, 0] = 0 ∧
+    syndrome 2 [0, 0, 1, 0, 0, 0, 0x4d, 0, 0x69, 0, 0, 0] = 0 ∧
+    syndrome 3 [0, 0, 1, 0, 0, 0, 0x4d, 0, 0x69, 0, 0, 0] = 40 ∧
+    checkRoots [1, 2] [3, 0, 1, 0x26, 0x35, 0xa9, 0x4e, 0xd4, 0x1c, 0xcb, 0x87, 0x95] rsMaskVoiceLCHeader = some true ∧
+    check [3, 0, 1, 0x26, 0x35, 0xa9, 0x4e, 0xd4, 0x1c, 0xcb, 0x87, 0x95] rsMaskVoiceLCHeader = some false := by
+  decide +kernel
+
+/-- the witness of `two_root_witness` on the parity octets 9, 10, 11 for the roots α, α² -/
+example : subWitness 1 2 9 10 11 = [0, 0, 0, 0, 0, 0, 0, 0, 0, 6, 20, 48] := by decide +kernel
 
 /-- distance 4 is attained (the bound of `min_distance` is sharp): two messages whose words differ in
 exactly four positions -/
